@@ -77,6 +77,7 @@ struct Harness
     static constexpr bool ANY_IDENTITY = (Codec<typename PI<P>::T>::IDENTITY_EQ || ...);
     static constexpr bool VALUES_ALLOCATE = (Codec<typename PI<P>::T>::ALLOCATES || ...);
     static constexpr bool STATEFUL = !Tr::ALWAYS_EQUAL;
+    static constexpr bool VALUES_CAN_THROW = (CanThrowOnCopy<typename PI<P>::T>::value || ...);
 
     static constexpr bool is_count(std::size_t i) { return i + 1 < N && KIND[i + 1] == K_VARYING; }
     static constexpr std::size_t fixed_index(std::size_t i)
